@@ -88,6 +88,11 @@ def strategy(tier):
                                'text': st.one_of(st.sampled_from(BAD),
                                                  S.text_st(max_size=6))}),
         st.fixed_dictionaries({'op': st.just('cdisc'), 'c': ci}),
+        # server.disconnect() whose DISCONNECT packet cannot be sent: the
+        # connection is being closed, or the transport's send fails
+        st.fixed_dictionaries({'op': st.just('sdisc'), 'c': ci,
+                               'send_fails': st.sampled_from(['closed',
+                                                              'oserror'])}),
         st.fixed_dictionaries({'op': st.just('sdisc'), 'c': ci}),
         # one polling payload: engine.io CLOSE, then more socket.io frames
         st.fixed_dictionaries({'op': st.just('close_then'), 't': tt,
@@ -519,12 +524,44 @@ def _generation(case, w, st_):
             w.send(c['t'], wire.DISCONNECT, c['ns'])
             w.mark_dead(ci)
         elif k == 'sdisc':
+            real = None
+            if op.get('send_fails'):
+                import engineio
+                exc = engineio.exceptions.SocketIsClosedError() \
+                    if op['send_fails'] == 'closed' else \
+                    OSError('send failed')
+                real = (sio.eio.send, sio.eio.send_packet)
+                dying = w.t[c['t']]
+
+                def mk_bad(orig):
+                    if case['aio']:
+                        async def bad(eio_sid, *a, **kw):
+                            if eio_sid == dying:
+                                raise exc
+                            return await orig(eio_sid, *a, **kw)
+                    else:
+                        def bad(eio_sid, *a, **kw):
+                            if eio_sid == dying:
+                                raise exc
+                            return orig(eio_sid, *a, **kw)
+                    return bad
+                sio.eio.send, sio.eio.send_packet = map(mk_bad, real)
+                flags.add('server_disconnect_send_fails')
             try:
                 w.do(sio.disconnect(c['sid'], namespace=c['ns']))
             except RuntimeError as e:
                 if 'injected fault' not in str(e):
                     raise
+            except OSError:
+                pass        # (what the application is told is not judged)
+            finally:
+                if real is not None:
+                    sio.eio.send, sio.eio.send_packet = real
             w.mark_dead(ci)
+            if real is not None and w.t_alive[c['t']]:
+                # a transport whose send fails is on its way out
+                w.h.settle()
+                w.lose(c['t'], reasons[0])
         w.h.settle()
     for i in range(case['ntrans']):
         t = t0 + i
@@ -629,6 +666,7 @@ def check_case(case):
             'fault_event', 'fault_disconnect', 'left_personal_room',
             'late_enter', 'late_emit_cb', 'late_session',
             'frames_after_close', 'kicked_by_connect_handler',
+            'server_disconnect_send_fails',
             'transport_lost_while_connect_handler_decides'})
         if case.get('disc_closes_own'):
             labels['disc_closes_own'] = True
